@@ -193,6 +193,20 @@ func Apply(dialect string, m *gm.Schema, e EditRef) ([]string, error) {
 			}
 		}
 		return nil, fmt.Errorf("harness: enum-add-value %+v", e)
+	case "enum-insert-value":
+		for i := range m.Enums {
+			if m.Enums[i].Name == e.Obj {
+				pos := 0
+				fmt.Sscan(e.Arg, &pos)
+				vs := m.Enums[i].Values
+				if pos > len(vs) {
+					pos = len(vs)
+				}
+				m.Enums[i].Values = append(append(append([]string{}, vs[:pos]...), "zz_inserted"), vs[pos:]...)
+				return []string{"ModifyObject(enum " + e.Obj + ")"}, nil
+			}
+		}
+		return nil, fmt.Errorf("harness: enum-insert-value %+v", e)
 	case "add-table":
 		m.Tables = append(m.Tables, gm.Table{Name: e.Obj, Cols: []gm.Col{{Name: "id", Type: IntType(dialect)}, {Name: "v", Type: IntType(dialect), Null: true}}, PK: []gm.Part{{Col: "id"}}})
 		return []string{"AddTable(" + e.Obj + ")"}, nil
